@@ -485,6 +485,18 @@ class VCtxBump(ContextProcessor):
         return [cls.CONTEXT_OUTPUT_KEY]
 
 
+class VRaise(FloatOperation):
+    """Raises an exception chosen by `kind`: classes with NO argument at all (`raise KeyError`), with an empty message, with
+    a non-text argument -- what handlers that format the failure must cope with."""
+
+    def _process_logic(self, data, kind: str = "KeyError"):
+        CALL_LOG.append(("VRaise", data.data, kind))
+        table = {"KeyError": KeyError(), "IndexError": IndexError(), "AssertionError": AssertionError(), "StopIteration": StopIteration(),
+                 "KeyErrorTuple": KeyError(("a", 1)), "OSError": OSError(2, "No such file", "x.dat"), "EmptyText": RuntimeError(""),
+                 "UnicodeError": UnicodeDecodeError("utf-8", b"\xff", 0, 1, "invalid start byte")}
+        raise table[kind]
+
+
 class VSilentFail(FloatOperation):
     """Raises an exception that carries no message at all (str(exc) == "")."""
 
